@@ -1069,6 +1069,199 @@ fn check_fixture(i: u64, rec: &mut Rec) -> CaseResult {
     Ok(())
 }
 
+// ---------------------------------------------------------------------------------------------
+// count / width boundaries: a small deterministic set of large or edge-sized subtables
+
+const BOUNDARY_ITEMS: u64 = 23;
+
+/// >= 200 000 codes: everything below 0x20000, every 16th code up to 0x110000, every code of
+/// [lo-3, hi+3] (at most 80 000 from each end), entry indices 65 533..65 540 and the extremes
+fn boundary_sample(lo: u32, hi: u32) -> Vec<u32> {
+    let mut v: Vec<u32> = (0..0x20000u32).collect();
+    v.extend((0x20000..0x110000u32).step_by(16));
+    let a = lo.saturating_sub(3);
+    let b = hi.saturating_add(3);
+    if b - a <= 160_000 {
+        v.extend(a..=b);
+    } else {
+        v.extend(a..a + 80_000);
+        v.extend(b - 80_000..=b);
+    }
+    for i in 65_533u32..=65_540 {
+        if let Some(c) = lo.checked_add(i) {
+            v.push(c);
+        }
+    }
+    v.extend([0x10FFFE, 0x10FFFF, 0x110000, 0x7FFF_FFFF, 0x8000_0000, 0xFFFF_FFFE, 0xFFFF_FFFF]);
+    v
+}
+
+fn cyc(i: u32, modulo: u32, hole_every: u32) -> u16 {
+    if hole_every != 0 && i % hole_every == hole_every - 1 {
+        0
+    } else {
+        (1 + (i.wrapping_mul(7)) % modulo) as u16
+    }
+}
+
+enum Boundary {
+    Model(RecModel),
+    Raw(u16, Vec<u8>, u32, u32),
+}
+
+fn boundary_item(i: u64) -> (&'static str, Boundary) {
+    let mk = |p: u16, e: u16, f: u16, map: BTreeMap<u32, u16>| {
+        Boundary::Model(RecModel { platform: p, encoding: e, format: f, map, extra_leads: BTreeSet::new() })
+    };
+    let dense = |first: u32, n: u32, modulo: u32, holes: u32| -> BTreeMap<u32, u16> {
+        let mut m: BTreeMap<u32, u16> = (0..n).map(|k| (first + k, cyc(k, modulo, holes))).filter(|(_, g)| *g != 0).collect();
+        // first and last entry mapped, so that the array has exactly n entries
+        m.insert(first, 1);
+        m.insert(first + n - 1, 2);
+        m
+    };
+    match i {
+        0 => ("f10:numChars=65535", mk(0, 4, 10, dense(0x20, 65_535, 65_535, 0))),
+        1 => ("f10:numChars=65536", mk(0, 4, 10, dense(0x20, 65_536, 65_535, 0))),
+        2 => ("f10:numChars=65537", mk(0, 4, 10, dense(0x20, 65_537, 65_535, 0))),
+        3 => ("f10:numChars=70001,astral", mk(0, 4, 10, dense(0x10000, 70_001, 65_535, 0))),
+        4 => ("f10:numChars=65537,first=0", mk(0, 4, 10, dense(0, 65_537, 600, 5))),
+        5 => ("f10:numChars=65537,astral,holes", mk(3, 10, 10, dense(0x1F000, 65_537, 65_535, 3))),
+        6 => ("f6:entryCount=255", mk(0, 3, 6, dense(0, 255, 65_535, 0))),
+        7 => ("f6:entryCount=256", mk(0, 3, 6, dense(0, 256, 65_535, 0))),
+        8 => ("f6:entryCount=65535,first=0", mk(0, 3, 6, dense(0, 65_535, 65_535, 0))),
+        9 => ("f6:entryCount=65535,ends-at-FFFF", mk(0, 3, 6, dense(1, 65_535, 65_535, 7))),
+        10 => ("f6:first+count=0x10000", mk(0, 3, 6, dense(0xFF00, 256, 65_535, 0))),
+        11 => {
+            let gids: Vec<u16> = (0..300u32).map(|k| cyc(k, 65_535, 0)).collect();
+            ("f6:first+count>0x10000", Boundary::Raw(6, enc::format6_raw(0xFF00, &gids), 0xFF00, 0xFF00 + 300))
+        }
+        12 => ("f6:first=FFFF,count=2", Boundary::Raw(6, enc::format6_raw(0xFFFF, &[5, 6]), 0xFFFF, 0x10001)),
+        13 => {
+            // 5000 groups: singletons and pairs with non-consecutive glyphs, BMP and beyond
+            let mut m = BTreeMap::new();
+            for k in 0..5000u32 {
+                let c = 0x100 + k * 41;
+                m.insert(c, cyc(k, 60_000, 0));
+                if k % 3 == 0 {
+                    m.insert(c + 1, cyc(k, 60_000, 0).wrapping_add(1).max(1));
+                }
+            }
+            ("f12:5000-groups", mk(3, 10, 12, m))
+        }
+        14 => {
+            // one group of 65 535 codes (glyphs 1..=65535) and a group ending at U+10FFFF
+            let mut m: BTreeMap<u32, u16> = (0..65_535u32).map(|k| (0x20000 + k, (k + 1) as u16)).collect();
+            for k in 0..256u32 {
+                m.insert(0x10FF00 + k, (300 + k) as u16);
+            }
+            ("f12:group-of-65535,end=10FFFF", mk(3, 10, 12, m))
+        }
+        15 => (
+            "f12:group>65536-codes,end=FFFFFFFF,glyph-crosses-65535",
+            Boundary::Raw(12, enc::format12_raw(&[(0x10FF00, 0x10FFFF, 500), (0xFFFF_0000, 0xFFFF_FFFF, 1)]), 0xFFFF_0000, 0xFFFF_FFFF),
+        ),
+        16 => (
+            "f12:startGlyphID+length-crosses-65535",
+            Boundary::Raw(12, enc::format12_raw(&[(0x100, 0x1FF, 1), (0x3000, 0x3010, 65_530)]), 0x3000, 0x3010),
+        ),
+        17 => ("f4:segCount=1", mk(3, 1, 4, BTreeMap::new())),
+        18 => ("f4:segCount=2", mk(3, 1, 4, dense(0x41, 26, 65_535, 0).into_iter().enumerate().map(|(k, (c, _))| (c, 10 + k as u16)).collect())),
+        19 => ("f4:segCount=8189", mk(3, 1, 4, (0..8188u32).map(|k| (0x10 + 2 * k, cyc(k, 65_535, 0))).collect())),
+        20 => ("f4:glyphIdArray=65500-bytes", mk(3, 1, 4, (0..32_750u32).map(|k| (0x1000 + k, cyc(k, 65_000, 0))).collect())),
+        21 => {
+            // every byte but 0 is a lead byte
+            let mut m = BTreeMap::new();
+            m.insert(0u32, 9u16);
+            for l in 1..=255u32 {
+                m.insert(l << 8 | l, (l * 3) as u16);
+                m.insert(l << 8 | 0x40, (l * 3 + 1) as u16);
+            }
+            ("f2:255-lead-bytes", mk(3, 4, 2, m))
+        }
+        _ => ("f0:all-256-mapped", mk(1, 0, 0, (0..256u32).map(|c| (c, (1 + c % 255) as u16)).collect())),
+    }
+}
+
+fn check_boundary(i: u64, rec: &mut Rec) -> CaseResult {
+    let (name, item) = boundary_item(i);
+    rec.class(&format!("boundary:{}", name));
+    rec.hash_u64(i);
+    let dry = [0u32; 0];
+    match item {
+        Boundary::Model(r) => {
+            let mut ch = Chooser::new(&dry);
+            let e = encode_record(&r, &mut ch);
+            let cmap = enc::cmap_table(&[(r.platform, r.encoding, 0)], &[e.bytes.clone()], &mut ch);
+            let off = rm::records(&cmap).expect("refmodel: header")[0].offset;
+            let lo = r.map.keys().next().copied().unwrap_or(0);
+            let hi = r.map.keys().last().copied().unwrap_or(0);
+            // the 200k sample only where a lookup is O(1) or the table has few segments
+            let sample = if matches!(r.format, 10 | 6 | 0) || e.segments <= 64 { boundary_sample(lo, hi) } else { Vec::new() };
+            let mut stats = Stats::default();
+            check_subtable(&r, &e, &cmap, off, &sample, rec, &mut stats)?;
+            rec.evaluations(stats.probes + stats.relation);
+            rec.set_nontrivial(true);
+            if let Some(m) = stats.zero_entry.or(stats.f2_alias).or(stats.f2_single_alias) {
+                return Err(fail("boundary-deviation", m));
+            }
+            Ok(())
+        }
+        Boundary::Raw(format, bytes, lo, hi) => {
+            let mut ch = Chooser::new(&dry);
+            let cmap = enc::cmap_table(&[(0, 4, 0)], &[bytes], &mut ch);
+            let off = rm::records(&cmap).expect("refmodel: header")[0].offset;
+            let st = ReadScope::new(&cmap)
+                .offset(off as usize)
+                .read::<CmapSubtable<'_>>()
+                .map_err(|err| fail("subtable-rejected", format!("{}: {:?}", name, err)))?;
+            let owned = st.to_owned();
+            let mine = rm::subtable(&cmap, off).expect("refmodel: subtable");
+            let mut listed: Vec<(u32, u16)> = Vec::new();
+            let complete = st.mappings_fn(|c, g| listed.push((c, g))).is_ok();
+            rec.class(if complete { "boundary:enumeration-complete" } else { "boundary:enumeration-reports-an-error" });
+            let mut lmap: std::collections::HashMap<u32, u16> = std::collections::HashMap::with_capacity(listed.len());
+            for (c, g) in &listed {
+                if *g != 0 {
+                    lmap.entry(*c).or_insert(*g);
+                }
+            }
+            let flat = |r: Result<Option<u16>, allsorts::error::ParseError>| -> u16 { r.ok().flatten().unwrap_or(0) };
+            let mut n = 0u64;
+            let sample = boundary_sample(lo, hi);
+            for code in sample.iter().copied().chain(listed.iter().map(|(c, _)| *c)) {
+                let got = flat(st.map_glyph(code));
+                let le = lmap.get(&code).copied().unwrap_or(0);
+                // an enumeration that ended with an error is not claimed to be complete: then
+                // only "what was listed is what lookups return"
+                if (complete && got != le) || (le != 0 && got != le) {
+                    return Err(fail(
+                        &format!("lookup-vs-enumeration-f{}", format),
+                        format!("{}: map_glyph({:#X}) = {} but mappings_fn lists {}", name, code, got, le),
+                    ));
+                }
+                if let Some(o) = &owned {
+                    let og = flat(o.map_glyph(code));
+                    if og != got {
+                        return Err(fail("owned-differs", format!("{}: code {:#X}: owned {} borrowed {}", name, code, og, got)));
+                    }
+                }
+                // the reference reader (a glyph id beyond 65535 is no glyph)
+                if mine.lookup(code) != Some(got) {
+                    return Err(fail(
+                        &format!("map_glyph-f{}", format),
+                        format!("{}: map_glyph({:#X}) = {}, reference reader {:?}", name, code, got, mine.lookup(code)),
+                    ));
+                }
+                n += 1;
+            }
+            rec.evaluations(n);
+            rec.set_nontrivial(true);
+            Ok(())
+        }
+    }
+}
+
 impl Property for C06 {
     fn id(&self) -> &'static str {
         "C06"
@@ -1102,6 +1295,7 @@ impl Property for C06 {
         ] {
             ctx.section(name, n, case_strategy(Some(e)), |c, rec| check_case_inner(c, rec, true));
         }
+        ctx.enumerate("boundaries", BOUNDARY_ITEMS, false, |i, rec| check_boundary(i, rec));
         let nfix = crate::props::c08::fixture_names().len() as u64;
         ctx.enumerate("fixtures", nfix, false, |i, rec| check_fixture(i, rec));
         ctx.enumerate("macroman-bytes", 256, true, |b, rec| {
